@@ -99,6 +99,11 @@ pub fn edit_calls(v: &RVal, o: &Opts) -> Vec<Call> {
             keys.push(format!("{}x", k));
         }
     }
+    if let RVal::Obj(m) = v {
+        if !m.is_empty() && m.keys().all(|k| refmodel::gen::ORDER_KEYS.contains(&k.as_str())) {
+            keys.extend(refmodel::gen::ORDER_KEYS.iter().map(|s| s.to_string()));
+        }
+    }
     keys.sort();
     keys.dedup();
     for k in &keys {
